@@ -149,6 +149,7 @@ def run(rep, tier, seed, budget):
     plan = [("many", 0)] + [("dec", n) for n in ((1, 2, 3, 4) if quick else (1, 2, 3, 4, 5, 6))]
     plan += [("enc", n) for n in ((1, 2, 3) if quick else (1, 2, 3, 4))]
     plan += [("tpl", i) for i in range(len(TEMPLATES))]
+    plan += [("skel", n) for n in ((5,) if quick else (5, 6))]
     for kind, n in plan:
         left = t_end - time.time()
         if kind == "many":
@@ -160,6 +161,11 @@ def run(rep, tier, seed, budget):
         elif kind == "enc":
             name = "encoder N=%d tokens: attribute=True vs plain, every atom symbol attributed to its SMILES atom token" % n
             fn, bounds = enc_path_for(lambda n=n: make_slots("s", [SMI17] * n)), {"tokens": SMI17, "N_tokens": n}
+        elif kind == "skel":
+            from .. import skel
+            at, rb = (("C",) if quick else ("C", "[NH+]", "c")), ("", "=")
+            name = "encoder, every skeleton of %d atoms %s in every writing order (ring bonds %s): attribution of every atom symbol" % (n, list(at), list(rb))
+            fn, bounds = enc_path_for(lambda n=n: skel.skeleton(n, at, ("",), rb)), skel.bounds(n, at, ("",), rb)
         else:
             name = "encoder template %d: nested branches / rings / several fragments with symbolic slots" % n
             fn, bounds = enc_path_for(lambda n=n: make_slots("s", TEMPLATES[n])), {"template": TEMPLATES[n]}
